@@ -149,6 +149,76 @@ def selftest(st):
             st.viol('selftest', f'{fn} n={spec[1][1]}: symir and native outputs are not bit-identical')
         else: st.ob(True, 'concrete')
 
+def job_dft_float(res, fn, n, kind='c'):
+    """large lengths: one symbolic execution (all samples symbolic) shows the code is linear with data-independent control flow; its transfer matrix is then extracted in double arithmetic (numpy propagation through
+    the term DAG) and compared entry-wise with the DFT matrix.  Weaker than job_dft (no exact rationals, no per-output LRA certificate) but reaches the tiled / blocked code paths of long transforms."""
+    import numpy as np
+    w = 2 if kind == 'c' else 1; insyms = [f'x{i}' for i in range(w * n)]
+    spec = [('pf64', [fsym(s_) for s_ in insyms]), ('i32', n), ('pf64', [0.0] * (2 * n))]; label = f'{fn} n={n} (float transfer matrix)'
+    m, out, status = run_lin(res, fn, spec, insyms, 2 * n, label)
+    ex = {'fn': fn, 'n': n, 'nx': n, 'kind': kind, 'nout': n}
+    def cex(xv, why): return confirm(res, PID, HARNESS, fn, [('pf64', xv), ('i32', n), ('pf64', [0.0] * (2 * n))], 'i32', 'dft', ORACLES, f'dft:{fn}:n={n}', why, extra=ex, timeout=300)
+    if status != 'ret':
+        if status == 'fork': res.inc(f'{label}: data-dependent control flow at this length')
+        else: cex([((i * 7919 + 13) % 1000) / 1000.0 - 0.5 for i in range(w * n)], f'{label}: {status} on a valid length')
+        return
+    r, ys = out
+    if r != n: cex([1.0] * (w * n), f'{label}: returned length {r}'); return
+    try: C = float_forms(ys, insyms)
+    except NonLinear as e: res.inc(f'{label}: not syntactically linear ({e})'); return
+    k = np.arange(n); ph = (np.outer(k, k) % n).astype(np.float64) * (2 * np.pi / n); Wr = np.cos(ph); Wi = -np.sin(ph)
+    D = np.zeros((2 * n, w * n))
+    if kind == 'c': D[0::2, 0::2] = Wr; D[0::2, 1::2] = -Wi; D[1::2, 0::2] = Wi; D[1::2, 1::2] = Wr
+    else: D[0::2, :] = Wr; D[1::2, :] = Wi
+    E = C[:, :w * n] - D; fro = float(np.sqrt((E * E).sum() / (2 if kind == 'c' else 1) + (C[:, w * n] ** 2).sum())); budget = 0.5 * 32 * n * EPS * math.sqrt(n)
+    sol = z3.Solver(); sol.add(z3.Not(z3.BoolVal(bool(fro <= budget))))
+    if timed_check(sol, res) == z3.unsat: res.ob(True, 'ground-float', f'{label}: code is linear (one path, {len(insyms)} symbols) and ||C - DFT||_F = {fro:.3g} <= 0.5*32*n*eps*sqrt(n) = {budget:.3g}')
+    else:
+        col = int(np.argmax((E * E).sum(axis=0)))
+        cex([1.0 if j == col else 0.0 for j in range(w * n)], f'{label}: transfer matrix differs from the DFT (||C-D||_F = {fro:.3g}, allowed {budget:.3g}); worst column {col}')
+JOBFNS['dft_float'] = job_dft_float
+
+class StopPath(Exception): pass
+def o_probe(spec, r, extra):
+    """three output bins of a long chirp-z / DFT compared with 40-digit direct sums (the full O(n*m) reference is out of reach at these lengths)"""
+    if r['status'] != 'ok' or r['ret'] == H_THROW: return True, f"czt n={spec[1][1]}: {r['status']} / threw {r.get('stderr', '')[-200:]}"
+    x = spec[0][1]; n = spec[1][1]; m_ = spec[2][1]; W = mpmath.mpc(spec[3][1], spec[4][1]); A = mpmath.mpc(spec[5][1], spec[6][1]); y = r['outs'][-1]
+    nz = [j for j in range(n) if x[2 * j] or x[2 * j + 1]]
+    for k in (0, 1, m_ // 2, m_ - 1):
+        e = mpmath.fsum(mpmath.mpc(x[2 * j], x[2 * j + 1]) * A ** (-j) * W ** (j * k) for j in nz); g = mpmath.mpc(y[2 * k], y[2 * k + 1])
+        sc = mpmath.sqrt(mpmath.fsum(x[2 * j] ** 2 + x[2 * j + 1] ** 2 for j in nz))
+        if abs(g - e) > 1e-6 * sc: return True, f"czt n={n} m={m_}: bin {k} = {complex(g)}, direct sum gives {complex(e)}"
+    return False, 'ok'
+ORACLES['probe'] = o_probe
+def job_czt_tables(res, n, m_):
+    """index / table arithmetic of the chirp-z plan constructor at lengths where 32-bit products of indices wrap (k*k >= 2^31 from k = 46341): the constructor is executed through the interpreted IR up to its first
+    FFT call with every signed-overflow / bounds / conversion obligation active (the inner power-of-two plans are stubbed out: their constructors are covered by the fft jobs)"""
+    mod, so = load(HARNESS); m = Machine(mod, max_steps=400_000_000)
+    built = []
+    def small(nm):
+        def ov(mm, this, n2):
+            built.append(n2); return mm.call(nm, [this, 2])      # a length-2 plan instead of the 2^17 one: the first solve() then ends the run with its length check
+        return ov
+    for nm in ('@_ZN6dsplib7FftPlanC2Ei', '@_ZN6dsplib8IfftPlanC2Ei'):
+        if nm not in mod.funcs: res.inc(f'czt tables: {nm} not an out-of-line function in the IR'); return
+        m.override[nm] = small(nm)
+    th = 2 * math.pi / n; w = (math.cos(th), -math.sin(th)); xv = [0.0] * (2 * n)
+    for j in (0, 1, n // 2, n - 1): xv[2 * j] = 1.0 + j / n; xv[2 * j + 1] = -0.5
+    spec = [('pf64', xv), ('i32', n), ('i32', m_), ('f64', w[0]), ('f64', w[1]), ('f64', 1.0), ('f64', 0.0), ('pf64', [0.0] * (2 * m_))]
+    st = 'returned'
+    try: sym_call(m, 'h_cztplan', spec, 'i32')
+    except Throw: st = 'stop' if len(built) >= 2 else 'threw before the inner plans were built'
+    except UB as e: st = 'ub ' + str(e)[:200]
+    except Budget as e: res.absorb(m); res.inc(f'czt tables n={n}: {type(e).__name__}'); return
+    res.absorb(m); ubs = [f'{k}: {msg}' for k, msg, _, _ in m.ub_found]
+    n2 = 1 << (n + m_ - 2).bit_length()
+    ok = st == 'stop' and not ubs and built[:2] == [n2, n2]
+    sol = z3.Solver(); sol.add(z3.Not(z3.BoolVal(bool(ok))))
+    if timed_check(sol, res) == z3.unsat: res.ob(True, 'ground', f'CztPlan({n}, {m_}) constructor up to its first FFT: {m.steps} IR steps, no signed overflow / out-of-range conversion / out-of-bounds access')
+    else:
+        confirm(res, PID, HARNESS, 'h_cztplan', spec, 'i32', 'probe', ORACLES, f'czt:tables:n>46340', f'CztPlan({n}, {m_}) constructor: {st} {ubs[:2]} inner plan lengths {built} (expected 2 x {n2})', timeout=300)
+JOBFNS['czt_tables'] = job_czt_tables
+
 def main(tier, seed):
     q = tier == 'quick'
     jobs = []
@@ -176,6 +246,9 @@ def main(tier, seed):
             jobs.append((f'fft_c_n nx={nx} n={n2}', 'dft', dict(fn='h_fft_c_n', n=n2, nx=nx, kind='c'), 1500))
             jobs.append((f'fft_r_n nx={nx} n={n2}', 'dft', dict(fn='h_fft_r_n', n=n2, nx=nx, kind='r'), 1500))
             if nx <= 4: jobs.append((f'rfft_n nx={nx} n={n2}', 'dft', dict(fn='h_rfft_n', n=n2, nx=nx, kind='r'), 1500))
+    for n in ((1221, 1024) if q else (1221, 1024, 1155, 1331, 1763, 2048, 2187, 2310, 1223, 509)): jobs.append((f'fft_c float n={n}', 'dft_float', dict(fn='h_fft_c', n=n, kind='c'), 3000))
+    for n in ((1368,) if q else (1368, 2048, 1221)): jobs.append((f'fft_r float n={n}', 'dft_float', dict(fn='h_fft_r', n=n, kind='r'), 3000))
+    for (n, m_) in (((46349, 46349),) if q else ((46349, 46349), (46341, 8), (8, 46400), (65537, 65537))): jobs.append((f'czt tables n={n} m={m_}', 'czt_tables', dict(n=n, m_=m_), 3000))
     th = [0.3, 2 * math.pi / 7, 1.1]
     cz = []
     for (n, m_) in ([(1, 1), (2, 3), (3, 2), (4, 4), (5, 8), (7, 5), (8, 8), (9, 16), (16, 9)] if q else [(a, b) for a in (1, 2, 3, 4, 5, 7, 8, 12, 16, 17, 31, 32) for b in (1, 2, 5, 8, 16, 33)]):
@@ -191,7 +264,7 @@ def main(tier, seed):
                    'relative-l2 statement for every input up to data-path rounding.',
         assumptions=['REAL theory: rounding of the data path is outside (half of the tolerance is reserved for it); twiddle/table rounding is inside (tables are the real doubles)',
                      'finite inputs; no overflow', 'czt accuracy is stated relative to ||R||_F/sqrt(n) of the exact chirp-z matrix R (the statement says "the same kind of accuracy")'],
-        bounds={'fft complex lengths': f'{sizes[0]}..{sizes[-1]} ({len(sizes)} lengths)', 'fft real / rfft / plans': f'{len(rsizes)} / {len(psizes)} lengths',
+        bounds={'long transforms (linearity by one symbolic run, transfer matrix in double arithmetic)': 'complex 1221, 1024 (thorough: + 1155, 1331, 1763, 2048, 2187, 2310, 1223, 509), real 1368 (thorough + 2048, 1221)', 'fft complex lengths': f'{sizes[0]}..{sizes[-1]} ({len(sizes)} lengths)', 'fft real / rfft / plans': f'{len(rsizes)} / {len(psizes)} lengths',
                 'fft(x,n) pad/truncate': f'input length {padn[0]}..{padn[-1]}, all n in 1..2*len', 'czt': f'{len(cz)} (n,m,w,a) configurations, x symbolic'},
         outside=['lengths above the bound', 'data-path rounding error', 'non-finite inputs, 1e+-150 dynamic range (no overflow in REAL)'],
         seed=seed, selftest=selftest)
